@@ -617,7 +617,10 @@ class TDS(BaseRoutine):
 
         self.h = self.deltat
 
-        # do not skip over the end time
+        # do not skip over the end time, and do not stop a round-off error short of it either:
+        # the remainder would become a step of the size of a few ulps, which is ill-conditioned
+        if abs(config.tf - system.dae.t - self.h) <= 1e-12 * self.h:
+            self.h = config.tf - system.dae.t
         self.h = max(min(self.h, config.tf - system.dae.t), 0)
 
         # an event scheduled exactly at the current time can only be pending at the starting time:
@@ -629,8 +632,9 @@ class TDS(BaseRoutine):
 
         # do not skip over event switch_times
         if self._switch_idx < system.n_switches:
-            if (system.dae.t + self.h) > system.switch_times[self._switch_idx]:
-                self.h = system.switch_times[self._switch_idx] - system.dae.t
+            t_switch = system.switch_times[self._switch_idx]
+            if (system.dae.t + self.h) > t_switch or abs(t_switch - system.dae.t - self.h) <= 1e-12 * self.h:
+                self.h = t_switch - system.dae.t
 
         if self.data_csv is not None:
             if self.k_csv + 1 < self.data_csv.shape[0]:
